@@ -2,7 +2,7 @@
 from . import c06, c11
 PROP = "C20"
 COQ_FILES = ["Machine.v", "Conv.v", "Conv_proofs.v", "Mem.v", "Mem_proofs.v", "Casts.v", "Casts_proofs.v"]
-DRIVERS = [dict(name="casts32", src="casts.cpp", defines=[], ops=["opq", "opqp", "opqs", "opqcb", "scast", "pcast"])]
+DRIVERS = [dict(name="casts32", src="casts.cpp", defines=[], ops=["opq", "opqp", "opqs", "opqcb", "opqcbf", "scast", "pcast"])]
 KINDS = [k for k in c06.KINDS if k != "wchar"]
 GUEST = {"short": "short", "ushort": "ushort", "int": "int", "uint": "uint", "long": "int", "ulong": "uint", "llong": "long", "ullong": "ulong"}
 
@@ -28,6 +28,11 @@ def gen_cases(tier, rng):
         cases.append("opqs %s" % c11.one_value("s1", rng, "lp32", False).replace(";", " "))
     for v in [0, 1, -1, (1 << 31) - 1, -(1 << 31)] + [rng.randrange(-(1 << 31), 1 << 31) for _ in range(20 if q else 200)]:
         cases.append("opqcb %d" % v)
+    # opaque floating-point and integer parameters / result of a callback (quiet NaNs only: a signalling NaN may be quieted in transit)
+    fb = [0, 0x80000000, 0x3f800000, 0x7f7fffff, 0x7f800000, 0x7fc00000, 1] + [rng.randrange(0, 0x7f800000) for _ in range(10 if q else 100)]
+    db = [0, 1 << 63, 0x3ff0000000000000, 0x7fefffffffffffff, 0x7ff0000000000000, 0x7ff8000000000000, 1] + [rng.randrange(0, 0x7ff0000000000000) for _ in range(10 if q else 100)]
+    for _ in range(40 if q else 400):
+        cases.append("opqcbf %d %d %d" % (rng.choice(db), rng.choice(fb), rng.choice([0, 1, -1, (1 << 31) - 1, -(1 << 31), rng.randrange(-(1 << 31), 1 << 31)])))
     # every source/target pair of the integer static cast, both wrappers
     for kt in KINDS:
         for kf in KINDS:
@@ -47,7 +52,7 @@ def NONTRIVIAL(case, model, cls):
 
 RULE = ("verif32 back end. Opaque: byte images (memcpy of the wrapper objects) of tainted<T> and of its to_opaque(), and the value after from_opaque, for 14 integer kinds at type limits +-1 / "
         "powers of two / random values, enum/float/double bit patterns incl. NaN payloads, pointers (null, first/last bytes, random), a registered struct field by field; a callback taking and "
-        "returning tainted_opaque called from guest code. Casts: sandbox_static_cast over ALL 14x14 integer source/target pairs from a tainted and from a tainted_volatile operand, at the limits of "
+        "returning tainted_opaque<long>, and one taking tainted_opaque<double>, <float>, <long> and returning tainted_opaque<double>, called from guest code. Casts: sandbox_static_cast over ALL 14x14 integer source/target pairs from a tainted and from a tainted_volatile operand, at the limits of "
         "both types, compared with the plain static_cast evaluated next to it; sandbox_reinterpret_cast (two target types), sandbox_const_cast, sandbox_static_cast<void*> on pointers held in "
         "application memory and in a sandbox pointer cell: the designated absolute address before and after. Result wrapper types are checked by static_assert in the driver.")
 TRUSTED = ["model coq/Casts.v hand-written (thin: the casts are load + C++ cast + wrap); byte images observed through memcpy of the wrapper objects"]
